@@ -176,10 +176,17 @@ func (c *fctx) methodType(r *absRoot, m *absMethod) string {
 		c.failf(c.f.decl, "variadic method %s of an abstract object", m.path)
 	}
 	parts := []string{r.stName()}
-	for i := 0; i < sig.Params().Len(); i++ {
-		parts = append(parts, c.coqType(c.f.decl, sig.Params().At(i).Type()))
-	}
 	rts := []string{r.stName()}
+	for i := 0; i < sig.Params().Len(); i++ {
+		pt := sig.Params().At(i).Type()
+		if isAbstractType(pt) {
+			continue // an interface-typed parameter: only the literal nil is handed to it (callAbstract)
+		}
+		parts = append(parts, c.coqType(c.f.decl, pt))
+		if methodStoresInto(m.fn, i) {
+			rts = append(rts, "bytes") // the final contents of the []byte argument
+		}
+	}
 	for i := 0; i < sig.Results().Len(); i++ {
 		if i == 0 && isRegionMethod(m.fn) {
 			rts = append(rts, "gregion")
@@ -206,8 +213,27 @@ func (c *fctx) callAbstract(x *ast.CallExpr, root *absRoot, path string, fn *typ
 	}
 	sig := m.fn.Type().(*types.Signature)
 	var args []string
+	var mpats, post []string
 	for i, a := range x.Args {
-		p, t := c.exprAs(a, sig.Params().At(i).Type())
+		pt := sig.Params().At(i).Type()
+		if isAbstractType(pt) {
+			if !isNilIdent(c.info, a) {
+				c.failf(a, "argument for the interface-typed parameter of the method %s must be the literal nil", path)
+			}
+			continue
+		}
+		if methodStoresInto(m.fn, i) {
+			pp, arg, pat, po := c.mutSliceArg(a)
+			pre = append(pre, pp...)
+			args = append(args, arg)
+			mpats = append(mpats, pat)
+			post = append(post, po...)
+			continue
+		}
+		if c.isMutatedParam(a) {
+			c.failf(a, "a []byte that is stored into is handed to the method %s, which is not known to store into it (mutatingMethods)", path)
+		}
+		p, t := c.exprAs(a, pt)
 		pre = append(pre, p...)
 		args = append(args, t)
 	}
@@ -218,13 +244,14 @@ func (c *fctx) callAbstract(x *ast.CallExpr, root *absRoot, path string, fn *typ
 	}
 	st := c.nameOf(root.v)
 	cur := c.readVar(st)
-	pats := []string{c.assignVar(st)}
+	pats := append([]string{c.assignVar(st)}, mpats...)
 	for i := 0; i < sig.Results().Len(); i++ {
 		t := c.fresh()
 		pats = append(pats, t)
 		terms = append(terms, t)
 	}
 	pre = append(pre, fmt.Sprintf("do %s <- %s;", tuple(pats), strings.TrimSpace(root.mName(path)+" "+cur+" "+strings.Join(args, " "))))
+	pre = append(pre, post...)
 	return pre, terms
 }
 
@@ -1232,6 +1259,7 @@ func (t *tr) analyseExt(f *fnInfo, seen map[*fnInfo]bool) {
 	sig := f.obj.Type().(*types.Signature)
 	f.owned, f.addrOf = map[*types.Var]bool{}, map[*types.Var]bool{}
 	f.nilable = map[*types.Var]bool{}
+	f.dirtOwned = map[*types.Var]bool{}
 	defer t.analyseRegions(f)
 	f.nErrCtor, f.errCtorIx = map[string]int{}, map[ast.Node]int{}
 	if recv := sig.Recv(); recv != nil {
@@ -1319,6 +1347,14 @@ func (t *tr) analyseExt(f *fnInfo, seen map[*fnInfo]bool) {
 								}
 							}
 						}
+						// x := dirtmake.Bytes(n, n): a fresh buffer of arbitrary content; it may also be handed
+						// (whole or as x[a:]) to callees and methods that store into it, and be returned
+						if fn := calleeOf(info, call); fn != nil && dirtFns[fn.FullName()] {
+							if v, ok := info.Defs[id].(*types.Var); ok && isByteSlice(v.Type()) {
+								cand[v] = true
+								f.dirtOwned[v] = true
+							}
+						}
 					}
 				}
 			}
@@ -1370,6 +1406,40 @@ func (t *tr) analyseExt(f *fnInfo, seen map[*fnInfo]bool) {
 						if root, path := absPathOf(f, info, sel.X); root != nil {
 							root.addMethod(joinPath(path, sel.Sel.Name), o)
 						}
+					}
+				}
+			}
+		}
+		return true
+	})
+	// the extra uses of a dirtmake buffer: an argument x / x[a:] of a call, an operand of return
+	ast.Inspect(f.decl.Body, func(n ast.Node) bool {
+		mark := func(e ast.Expr) {
+			e = ast.Unparen(e)
+			if se, ok := e.(*ast.SliceExpr); ok && se.High == nil && se.Max == nil {
+				e = ast.Unparen(se.X)
+			}
+			if id, ok := e.(*ast.Ident); ok {
+				if v, ok := info.Uses[id].(*types.Var); ok && f.dirtOwned[v] {
+					allowed[id] = true
+				}
+			}
+		}
+		switch x := n.(type) {
+		case *ast.CallExpr:
+			if fid, ok := ast.Unparen(x.Fun).(*ast.Ident); ok {
+				if _, isB := info.Uses[fid].(*types.Builtin); isB {
+					return true
+				}
+			}
+			for _, a := range x.Args {
+				mark(a)
+			}
+		case *ast.ReturnStmt:
+			for _, r := range x.Results {
+				if id, ok := ast.Unparen(r).(*ast.Ident); ok {
+					if v, ok := info.Uses[id].(*types.Var); ok && f.dirtOwned[v] {
+						allowed[id] = true
 					}
 				}
 			}
@@ -1561,7 +1631,15 @@ func (c *fctx) bindLine(lhs ast.Expr, name, term string) string {
 var externalFns = map[string]string{
 	"(" + modPath + "protocol/thrift.BinaryProtocol).Skip": "x_thrift_Binary_Skip",
 	"semtest/ext.Calc": "x_ext_Calc", // the translator's differential self-test (testdata/ext)
+	// uninitialised memory: the content is an oracle (at most one call per function, see dirtFn)
+	dirtFn:              "x_dirtmake_Bytes",
+	"semtest/ext.Dirty": "x_ext_Dirty",
 }
+
+const dirtFn = "github.com/bytedance/gopkg/lang/dirtmake.Bytes"
+
+// functions whose result is freshly allocated memory of arbitrary content
+var dirtFns = map[string]bool{dirtFn: true, "semtest/ext.Dirty": true}
 
 func (f *fnInfo) addExtern(fn *types.Func) {
 	for _, e := range f.externs {
@@ -1601,6 +1679,16 @@ func (c *fctx) callExternal(x *ast.CallExpr, fn *types.Func, name string) (pre [
 	sig := fn.Type().(*types.Signature)
 	if x.Ellipsis.IsValid() || sig.Variadic() {
 		c.failf(x, "variadic call")
+	}
+	if dirtFns[fn.FullName()] {
+		// the oracle is a function of the sizes: two calls would be given the same content
+		if c.dirtCall != nil && c.dirtCall != x {
+			c.failf(x, "a second allocation of uninitialised memory in one function (the content oracle is a function of the sizes)")
+		}
+		if len(c.loops) > 0 {
+			c.failf(x, "allocation of uninitialised memory inside a loop")
+		}
+		c.dirtCall = x
 	}
 	var args []string
 	for i, a := range x.Args {
